@@ -121,12 +121,15 @@ def body(ch):
             expr = w + tone
             alt_len = [1, len(expr)]
         ctx = ch.pick('context', ['alone'] + ['punct:' + p for p in PUNCT] + ['pre:' + f for f in FILLERS]
-                      + ['post:' + f for f in FILLERS] + ['both:' + f for f in FILLERS])
+                      + ['post:' + f for f in FILLERS] + ['both:' + f for f in FILLERS]
+                      + ['ws: |', 'ws:  |', 'ws:\t|', 'ws:| ', 'ws:  |  ', 'ws: |!'])
         k, _, arg = ctx.partition(':')
         if k == 'alone':
             pre, post = '', ''
         elif k == 'punct':
             pre, post = '', arg
+        elif k == 'ws':
+            pre, post = arg.split('|')
         elif k == 'pre':
             pre, post = arg + ' ', ''
         elif k == 'post':
